@@ -16,3 +16,5 @@ const verifSkipFixSelfIntersects = false
 func verifSkipJoin(e, other *Active, pt Point64, checkCurrX bool) bool { return false }
 
 func verifSkipMicroFix(op *OutPt) bool { return false }
+
+func verifSplitArea(area1, area2 float64) float64 { return area2 }
